@@ -1005,6 +1005,29 @@ class CWorld:
             raise v
         return want
 
+    def modelfree_pass(self, when):
+        """Oracles that do not consult the harness' model: usable when the model is out of step."""
+        found = []
+        for dv in self.drv:
+            if dv.raw is None or dv.mc is None:
+                continue
+            for fn in (lambda: self.toc_oracle(dv, when), lambda: self.check_index_rebuilt(dv, when)):
+                try:
+                    fn()
+                except Violation as v:
+                    found.append(v.v)
+                except Exception:
+                    pass
+            part = getattr(self, "_toc_partial", None)
+            if part:
+                try:
+                    self.check_described(dv, part[0], part[1])
+                except Violation as v:
+                    found.append(v.v)
+                except Exception:
+                    pass
+        return found
+
     def check_attached_set(self, dv, objs, when):
         """the model's objects are exactly the stored objects (C07)"""
         stored = sorted((o[2], o[0]) for o in objs.values())
@@ -1263,6 +1286,26 @@ class ContainerEngine:
                         back = {"op": g.choice(["copy", "copy", "move"]), "base": "/", "src": dstp, "dst": srcp}
                         sh.apply(back)
                         ops.append(back)
+            elif k == "meta_set" and g.random() < (0.1 if prop in ("C20", "C06") else 0.03) and len(sh.nodes) >= 3:
+                # two versions of one schema name in use at two nodes, then every object of one
+                # version goes away (the other version's schema, parents and package must stay)
+                multi = sorted(set(n for n, _ in VS.ATTACHABLE if sum(1 for m, _ in VS.ATTACHABLE if m == n) >= 2))
+                nm = g.choice(multi)
+                vers = [v for n, v in VS.ATTACHABLE if n == nm]
+                v1, v2 = g.sample(vers, 2)
+                cands = [q for q in sh.nodes if (q, nm) not in ms.pairs()]
+                if len(cands) >= 2:
+                    qa, qb = g.sample(sorted(cands), 2)
+                    for q, v in ((qa, v1), (qb, v2)):
+                        counter[0] += 1
+                        ops.append({"op": "meta_set", "path": q, "schema": nm, "version": list(v), "idx": counter[0], "how": "class", "as": g.choice(["dict", "obj", "json"])})
+                        ms.add(q, nm)
+                    if g.random() < 0.4:
+                        ops.append({"op": "boundary"})
+                    ops.append({"op": "meta_del", "path": qa, "schema": nm})
+                    ms.rm(qa, nm)
+                    if g.random() < 0.5:
+                        ops.append({"op": "reopen", "via": g.choice(["obj", "args"])})
             elif k == "meta_set":
                 counter[0] += 1
                 roll = g.random()
@@ -1443,6 +1486,14 @@ class ContainerEngine:
                     o = dict(o)
                     o["step"] = len(log)
                     viol.append(o)
+                if w.focus is not None and not any(x["prop"] == w.focus for x in viol):
+                    # the run ends on an observation of another property (e.g. the drivers
+                    # disagree about an operation): look once more with the oracles that need no
+                    # model (raw-tree TOC, index rebuilt from disk, embedded schema info), so that
+                    # what the same operation did to the property under check is not lost
+                    for x in w.modelfree_pass(f"after the operation that ended the run (op {len(log)})"):
+                        if x["prop"] == w.focus and not any((y["prop"], y["oracle"]) == (x["prop"], x["oracle"]) for y in viol):
+                            viol.append(dict(x, step=len(log)))
             except SimRunaway as e:
                 viol.append({"prop": "C09", "oracle": "no-progress", "detail": str(e), "shape": "runaway", "step": len(log)})
             except env.HarnessError:
